@@ -117,7 +117,7 @@ CHECKS["C19"] = {
     "text": "map_result_eq (run_vm_to_completion and process_vm_result map every terminal VM result and ledger state alike), run_eq_steps/single_steps_eq_run (for every deterministic VM, every partition of the run into chunks with pauses - "
             "one instruction at a time included - ends in the same state/result) and terminal_stable are Lean theorems. On every run the two Rust match blocks are re-extracted from src/interpreter/mod.rs and must be textually identical "
             "(so one transcription covers both). Generated scripts, entry modules, import graphs and order-issuing programs go through eval, prepare+step, step with interleaved API reads and collect(), C API tsrun_run and C API tsrun_step; "
-            "transcripts (import requests, order traffic with payloads, result, exports, console) must be equal; generated modules must behave identically as entry program, provided dependency and internal source module. Over M-Compile: completes_under_every_schedule / throws_under_every_schedule (every chunking of step() calls of a compiled program of the modelled core ends in the state the reference semantics prescribes).",
+            "transcripts (import requests, order traffic with payloads, result, exports, console) must be equal; generated modules must behave identically as entry program, provided dependency and internal source module. Over M-Compile: completes_under_every_schedule / throws_under_every_schedule (every chunking of step() calls of a compiled program of the modelled core ends in the state the reference semantics prescribes). Sessions: one to three earlier programs (failing or completing, with or without a module path, with exports collected before a failure) run in the same interpreter through the same entry point before the program compared.",
     "note": "The VM is an abstract deterministic step function in the model; the three export-wiring functions and the C API glue are not modelled, only compared by transcripts.",
     "design_ref": "DESIGN.md §4 C19",
 }
@@ -148,7 +148,7 @@ CHECKS["C04"] = {
             "(E.X is the last member named X, E[n] the last member with value n, a member without initialiser is its predecessor plus one), ns_block_alias_eq_emit / ns_merged_alias_eq_emit / ns_export_is_property "
             "(alias bindings compute the namespace object of the emit for every body and every sequence of merged blocks; exported variables are live), ctor_param_properties are Lean theorems. The model's lowered object is compared "
             "with the object the real compiler builds for every generated enum and pure namespace; every generated TypeScript program (enums, namespaces, parameter properties, abstract classes; top level or in a function) must behave "
-            "like its JavaScript emit on tsrun and on the reference engine.",
+            "like its JavaScript emit on tsrun and on the reference engine. Generated abstract classes also hold the other members that emit nothing (declared fields, overload signatures, an index signature) and static initialisation blocks at every position, whose execution order is part of the observation.",
     "note": "The emit text is produced by the check's generator; fractional/NaN enum values, functions inside namespaces, derived-class constructor order and abstract members are covered by the differential only. "
             "Object key order is not compared (a C01 matter).",
     "design_ref": "DESIGN.md §4 C04",
@@ -188,7 +188,7 @@ CHECKS["C17"] = {
     "text": "touches_exist, null_context_reported / null_value_reported, free_commutes_ctx_free, getters_survive_ctx_free, dup_independent, wf_init are Lean theorems over the model of the data plane. Generated call sequences "
             "(constructors, getters, properties under 12 key spellings incl. NULL, arrays, globals, dup, release of boxes and contexts in any order, NULL and survivors of released contexts as arguments) are executed by the real API "
             "(linked with --features c-api) and by the model; every result token must agree and every model state must satisfy the well-formedness predicate. Full sequences add scripts, native callbacks re-entering the API, internal modules, "
-            "orders answered and released at once, promises and calls; all sequences run under valgrind memcheck (invalid read/write/free = violation) and every returned string is checked for NUL termination, UTF-8 validity and length.",
+            "orders answered and released at once, promises and calls; all sequences run under valgrind memcheck (invalid read/write/free = violation) and every returned string is checked for NUL termination, UTF-8 validity and length. Every step result is inspected after its release (all array pointers NULL, all counts 0) and released a second time; scenarios in which the host rejects order promises it created make the next suspension carry cancelled ids.",
     "note": "Memory safety is observed by memcheck on generated sequences, not proved; preservation of well-formedness by every model operation is evaluated per run, not proved. The script side (what natives/orders do inside the interpreter) is not modelled.",
     "design_ref": "DESIGN.md §4 C17",
 }
